@@ -1,12 +1,12 @@
 from vlib import core
 from vlib.plan import Phase, run_phases
 
-RULE = ("scenario = one flow graph. Class G (72% of the mixed phases): random DAG of 1-14 composite nodes drawn from 19 kinds (function_node queueing / "
+RULE = ("scenario = one flow graph. Class G (72% of the mixed phases): random DAG of 1-14 composite nodes drawn from 20 kinds (function_node queueing / "
         "lightweight / queueing_lightweight with limits serial,2,3,unlimited; buffer->rejecting function_node (also rejecting_lightweight); queue, buffer, "
         "priority_queue, sequencer, broadcast, overwrite nodes; buffer->limiter->worker->{out, decrement feedback}; multifunction_node (3 policies) routing "
         "by id to 2 ports; function->split_node; indexer_node->adapter; broadcast->{arms}->join_node (queueing / reserving / key_matching)->adapter; "
         "async_node completed by 2 foreign threads after random delays; function->continue_node (1-2 predecessors, also lightweight); buffer->2-3 rejecting "
-        "workers->broadcast; input_node, input_node->rejecting function_node), every composite input accepts, single-receiver senders get one successor, "
+        "workers->broadcast; input_node, input_node->rejecting function_node; non-buffering sender->{rejecting first successor that may lose what it rejects, accepting second successor that must still get everything}), every composite input accepts, single-receiver senders get one successor, "
         "so the expected invocation count of every body for every message id (and the content of terminal buffers) follows from the wiring and is "
         "propagated through it; 1-300 messages put by 1-6 external threads (inside or outside the arena) and produced by input_nodes, 1-3 put/wait_for_all "
         "rounds on the same graph, in 25% a wait_for_all racing the putters, arenas of 1-16 slots kept hot, hook-driven delays at the flow-graph, aggregator "
@@ -65,6 +65,8 @@ def run(tier, seed, scale):
     chk.require(hn(186) > 1000 * sc, "fewer than 1000 item-buffer grows (%d)" % hn(186))
     chk.require(hn(187) > 50000 * sc, "fewer than 50000 wait-vertex releases (%d)" % hn(187))
     chk.require(hh(170)[0] > 1000 * sc, "fewer than 1000 aggregator operations handed to another thread's handler (%d)" % hh(170)[0])
+    lossy = st.get("messages_a_rejecting_first_successor_of_a_fanout_did_not_get(cumulative per round)", 0)
+    chk.require(lossy > 2000 * sc, "a rejecting first successor of a fan-out rejected (and lost) only %d messages" % lossy)
     chk.require(st.get("external_puts_while_bodies_running", 0) > 5000 * sc, "fewer than 5000 external puts while graph bodies were running")
     chk.require(st.get("limited_bodies_that_reached_their_limit", 0) > 3000 * sc, "fewer than 3000 limited bodies that filled their concurrency limit")
     chk.require(st.get("scenarios_bodies_overlapped", 0) > 3000 * sc, "fewer than 3000 graphs with two bodies running at the same time")
@@ -77,6 +79,7 @@ def run(tier, seed, scale):
     for k, v in st.items():
         if k.startswith("nodes_") or k.startswith("lossy_topology_"):
             chk.require(v > 50 * sc, "%s was built only %d times" % (k, v))
+    chk.extra["fanout_first_successor_rejected_while_second_must_get_everything"] = lossy
     chk.extra["windows"] = {
         "successor_rejections[broadcasting sender, single-receiver sender, async gateway]": hh(180)[:3],
         "predecessor_pulls[try_get, get failed -> edge back to push, try_reserve, reserve failed]": hh(181)[:4],
